@@ -161,7 +161,7 @@ func (e *Environment) SaveGlobals(to io.Writer, maxValueLen int) (int, error) {
 		v := e.store[k]
 		if v.Type() == FUNC {
 			f := v.(Function)
-			if f.Name != nil {
+			if f.Name != nil && f.Name.Literal() == k {
 				// Named function inspect is ready for definition, eg func y(a,b){a+b}.
 				if ferr := VerifFault("save:write"); ferr != nil {
 					return n, ferr
@@ -174,7 +174,7 @@ func (e *Environment) SaveGlobals(to io.Writer, maxValueLen int) (int, error) {
 				VerifPoint("save:binding")
 				continue
 			}
-			// Anonymous function are like other variables.
+			// Anonymous function, and named ones held by a variable of another name (g = f), are like other variables.
 			//   x=func(a,b){a+b}
 			// fallthrough.
 		}
